@@ -224,6 +224,78 @@ func bootCrew(ctx context.Context, c gen.CrewCase) (*sio.Crew, error) {
 	return cr, nil
 }
 
+// relayCounters: for every machine that is waiting at "listen", its message counter.
+func relayCounters(c *sio.Crew) map[string]float64 {
+	acc := map[string]float64{}
+	for mid, m := range c.Machines {
+		if mid == sio.CaptainMachine || mid == sio.TimersMachine || m.State == nil || m.State.NodeName != "listen" {
+			continue
+		}
+		n, _ := m.State.Bs["n"].(float64)
+		acc[mid] = n
+	}
+	return acc
+}
+
+// relayRoundAccounted checks one round of the crew on its own report: the messages processed in
+// the round are the inbound one and every reported emission, each once; a relay machine (gen/crew.go)
+// that waits at "listen" before and after the round has counted exactly the depth-carrying messages
+// addressed to it.  Rounds with crew operations, unrouted or "*" messages are not judged (who is
+// addressed then depends on the crew's membership during the round).
+func relayRoundAccounted(msg interface{}, r *sio.Result, before, after map[string]float64) bool {
+	processed := []interface{}{msg}
+	for _, batch := range r.Emitted {
+		processed = append(processed, batch...)
+	}
+	want := map[string]float64{}
+	for _, m := range processed {
+		mm, is := m.(map[string]interface{})
+		if !is {
+			return true
+		}
+		if _, op := mm["update"]; op {
+			return true
+		}
+		if _, op := mm["delete"]; op {
+			return true
+		}
+		_, counted := mm["d"].(float64)
+		seen := map[string]bool{}
+		switch t := mm["to"].(type) {
+		case string:
+			if t == "*" || t == sio.CaptainMachine || t == sio.TimersMachine {
+				return true
+			}
+			seen[t] = true
+		case []interface{}:
+			for _, x := range t {
+				s, is := x.(string)
+				if !is || s == "*" || s == sio.CaptainMachine || s == sio.TimersMachine {
+					return true
+				}
+				seen[s] = true
+			}
+		default:
+			return true
+		}
+		if counted {
+			for s := range seen {
+				want[s]++
+			}
+		}
+	}
+	for mid, n0 := range before {
+		n1, still := after[mid]
+		if !still {
+			continue
+		}
+		if n1 != n0+want[mid] {
+			return false
+		}
+	}
+	return true
+}
+
 func runOneCrew(id int, c gen.CrewCase) (line crewLine) {
 	line = crewLine{Op: "crew", Id: id, Specs: c.Specs, Limit: c.Limit, Init: c.Init, History: c.History, Profile: c.Profile}
 	ctx, cancel := context.WithCancel(context.Background())
@@ -242,9 +314,14 @@ func runOneCrew(id int, c gen.CrewCase) (line crewLine) {
 	steps := []interface{}{}
 	bfsOrdered, batchOrder, servicesQuiet, storeEq := true, true, true, true
 	snapshots := []map[string]*crew.Machine{} // the store after each message, for the restart probe
+	fedBackCount := true
 	for _, msg := range c.History {
 		cap0, tim0 := serviceState(cr, sio.CaptainMachine), serviceState(cr, sio.TimersMachine)
+		before := relayCounters(cr)
 		r, err := cr.ProcessMsg(ctx, gen.DeepCopy(msg))
+		if err == nil && !relayRoundAccounted(msg, r, before, relayCounters(cr)) {
+			fedBackCount = false
+		}
 		if err != nil {
 			steps = append(steps, map[string]interface{}{"err": err.Error()})
 			continue
@@ -348,7 +425,7 @@ func runOneCrew(id int, c gen.CrewCase) (line crewLine) {
 			}
 		}()
 	}
-	line.Probe = map[string]interface{}{"bfsOrdered": bfsOrdered, "batchOrder": batchOrder, "servicesQuiet": servicesQuiet,
+	line.Probe = map[string]interface{}{"bfsOrdered": bfsOrdered, "batchOrder": batchOrder, "servicesQuiet": servicesQuiet, "fedBackCount": fedBackCount,
 		"storeEqLive": storeEq, "rebuildEquiv": rebuildEquiv}
 	return
 }
